@@ -8,7 +8,7 @@ use syn::Generics;
 use proc_macro2::{Span, TokenStream};
 use quote::{quote, ToTokens};
 use syn::{
-    parse::{Parse, ParseStream},
+    parse::{discouraged::Speculative, Parse, ParseStream},
     Attribute, ExprClosure, Path,
 };
 
@@ -495,9 +495,16 @@ pub enum CustomFunction {
 
 impl Parse for CustomFunction {
     fn parse(input: ParseStream) -> syn::Result<CustomFunction> {
-        if let Ok(path) = input.parse::<Path>() {
-            Ok(Self::Path(path))
-        } else if let Ok(closure) = input.parse::<ExprClosure>() {
+        // NOTE: parse speculatively on forks: a failed attempt must not consume tokens
+        // (e.g. `a::|x| x` is not a path followed by nothing, nor a closure).
+        let fork = input.fork();
+        if let Ok(path) = fork.parse::<Path>() {
+            input.advance_to(&fork);
+            return Ok(Self::Path(path));
+        }
+        let fork = input.fork();
+        if let Ok(closure) = fork.parse::<ExprClosure>() {
+            input.advance_to(&fork);
             Ok(Self::Closure(closure))
         } else {
             let msg = "Expected a path to function or a closure.";
